@@ -81,3 +81,120 @@ def c17(ev, tier, seed):
     ev.exhaustive = False
     ev.assumptions = ["the end-of-request byte sequence is not public; its EndRequest part is compared here, the whole sequence "
                       "is observed through Request::close in the connection replays (C07)"]
+
+
+# ---------------------------------------------------------------------------- request parser (C01 C03 C04 C06, part of C05)
+RP_INVARIANTS = "Geometry NeverFullUnlessStuck PrefixDetermined RepliesExact OutcomeExact BoundSuffices"
+
+
+def rp_cfg(B, menu, feed):
+    return ("SPECIFICATION Spec\nCONSTANTS\n  B = %d\n  Menu = %s\n  Feed = \"%s\"\nVIEW View\nACTION_CONSTRAINT Emit\n"
+            "INVARIANTS %s\nPROPERTIES StickyFatal DoneSticky\nCHECK_DEADLOCK FALSE\n" % (B, cl.tla_set(menu), feed, RP_INVARIANTS))
+
+
+def rp_model(ev, prop, seed, label, B, menu, feed, timeout=1500):
+    name = "%s-rp-%s" % (prop, label)
+    cfg = rp_cfg(B, menu, feed)
+    stats, h = cl.run_tlc_piped(name, "MC_ReqParser", cfg, ["rp-replay", "--prop", prop, "--seed", str(seed), "--threads", str(cl.NCPU)],
+                                timeout=timeout, workers=max(4, cl.NCPU - 4))
+    ev.add_tlc("MC_ReqParser B=%d menu=%s feed=%s" % (B, ",".join(menu), feed), stats)
+    ev.add_harness("edge-cover replay on request::Parser (%s)" % label, h)
+
+
+RP_BIND = {
+    "C01": ["done", "conv", "req", "env"],
+    "C03": ["done", "out", "conv", "room", "err", "req", "env", "left"],
+    "C04": ["out"],
+    "C05": ["left", "conv"],
+    "C06": ["room", "err", "conv"],
+}
+
+
+def rp_traces(ev, prop, seed, scenarios, label="traces"):
+    name = "%s-rp-%s" % (prop, label)
+    wd = os.path.join(cl.OUT, name)
+    os.makedirs(wd, exist_ok=True)
+    trace = os.path.join(wd, "trace.ndjson")
+    h = cl.run_harness(name, ["rp-trace", "--prop", prop, "--seed", str(seed), "--scenarios", str(scenarios), "--trace", trace])
+    ev.add_harness("seeded drivers on request::Parser (recorded)", h, as_traces=False)
+    cfg = "SPECIFICATION TraceSpec\nCONSTANT Bind = %s\nPOSTCONDITION Accepted\nCHECK_DEADLOCK FALSE\n" % cl.tla_set(RP_BIND[prop])
+    events, rejected = cl.validate_trace(ev, prop, name, "Trace_ReqParser", cfg, trace,
+                                         {"cmd": "rp-trace", "prop": prop, "seed": seed, "scenarios": scenarios})
+    runs = (h.get("extra") or {}).get("trace_runs", 0)
+    ev.traces += runs
+    ev.extra.setdefault("trace_events_validated", 0)
+    ev.extra["trace_events_validated"] += events
+    # exact configuration: implementation-shaped fields; a rejection is DRIFT, not a violation
+    cfgx = "SPECIFICATION TraceSpec\nCONSTANT Bind = %s\nPOSTCONDITION Accepted\nCHECK_DEADLOCK FALSE\n" % cl.tla_set(RP_BIND[prop] + ["free"])
+    if rejected == 0:
+        st = cl.run_trace_validation(name + "-exact", "Trace_ReqParser", cl.write_cfg(name + "-exact", "Trace_ReqParser.cfg", cfgx), trace)
+        if st["rejected"] or not st["ok"]:
+            print("DRIFT: request parser free-space accounting differs from the implementation-shaped model (%s)" % (st["rejected"][:1],))
+            ev.drifts += 1
+    os.remove(trace)
+
+
+@check("C01")
+def c01(ev, tier, seed):
+    ev.rule = ("MC_ReqParser menu: well-formed preambles (3 roles x flags x paddings; 7 pair lists with 1- and 4-byte length "
+               "prefixes, empty names/values, duplicate and case-variant keys, a non-UTF-8 name; every cut of the Params payload "
+               "into <=4 records for one list, <=3 / <=2 for the others; one interleaved GetValues / unknown / foreign record at "
+               "every gap) x every partition into parse(n) calls with n from the feed set. Invariants: PrefixDetermined "
+               "(state equals the canonical byte-by-byte parse), OutcomeExact (request, last-wins environment, leftover equal the "
+               "reference RefReq/RefEnv). Every transition is replayed on the real parser (edge cover); traces of seeded drivers "
+               "with realistic and boundary sizes (127/128/65535/70000-byte pairs, buffers 24..70016) are validated by "
+               "Trace_ReqParser. Non-trivial: a history that fed at least one byte / an input longer than 16 bytes.")
+    feed = "all" if tier == "thorough" else "quick"
+    rp_model(ev, "C01", seed, "b24", 24, ["cuts", "pad", "inter"], feed)
+    if tier == "thorough":
+        rp_model(ev, "C01", seed, "b32", 32, ["cuts", "pad", "inter"], "all")
+    rp_traces(ev, "C01", seed, 2000 if tier == "thorough" else 150)
+    ev.exhaustive = False
+    ev.assumptions = ["request ids are sampled (the code only tests id == own and id == 0)",
+                      "name normalisation (lossy UTF-8 + ASCII upper case) is computed with std and enters the model as the abstract key",
+                      "the lexer (harness/src/wire.rs) describes recorded byte strings for the trace specification"]
+
+
+@check("C03")
+def c03(ev, tier, seed):
+    ev.rule = ("Hostile menu of MC_ReqParser (bad versions, BeginRequest with wrong length / id 0 / unknown role, aborts, stale "
+               "stream records, wire truncated at every offset) x every partition into calls incl. parse(0) and calls after "
+               "done/fatal; StickyFatal/DoneSticky as action properties; plus seeded random and mutated byte strings under >= 3 "
+               "chunkings each, traced and validated (all fields bound), panics caught. Stream parser part: see the second stage.")
+    rp_model(ev, "C03", seed, "hostile", 24, ["hostile", "trunc", "inter"], "all")
+    if tier == "thorough":
+        rp_model(ev, "C03", seed, "hostile32", 32, ["hostile", "trunc", "inter", "bound"], "all")
+    rp_traces(ev, "C03", seed, 4000 if tier == "thorough" else 300)
+    ev.exhaustive = False
+    ev.assumptions = ["announced lengths above 10^9 are clamped by the lexer (TLC integers are 32-bit); no driver completes such a pair"]
+
+
+@check("C04")
+def c04(ev, tier, seed):
+    ev.rule = ("Reply menu: GetValues bodies (known / unknown / repeated names, values, trailing partial pair, empty body, non-zero "
+               "id), unknown types, foreign and duplicate BeginRequest, unknown role, AbortRequest during Params, at every record "
+               "gap of a request, split across calls at every offset; RepliesExact compares all replies so far with the reference "
+               "list (due offsets); replies are compared as bytes in the replay and as decoded descriptors in traces.")
+    rp_model(ev, "C04", seed, "replies", 24, ["inter", "hostile"], "all")
+    rp_traces(ev, "C04", seed, 2000 if tier == "thorough" else 200)
+    ev.exhaustive = False
+    ev.assumptions = ["an unknown-type record is answered with the record's own request id (what the code and its test do)",
+                      "a GetValues record with an empty body or a non-zero id gets no reply"]
+
+
+@check("C06")
+def c06(ev, tier, seed):
+    ev.rule = ("Bound menu: a pair of name+value size B-14..B-1 with both length encodings, placed after a small pair, payload cut at "
+               "the start / inside each prefix / at the name-value seam / at the end; B in {24,32,40}; BoundSuffices (no StuckOnInput "
+               "when every pair <= B-13) and NeverFullUnlessStuck in every state; the size rule AlignedBuf is checked by TLC for "
+               "n in 0..4100 and on the code for every n <= 70000 and around powers of two up to 2^20.")
+    for B in ([24, 32, 40] if tier == "thorough" else [24, 32]):
+        rp_model(ev, "C06", seed, "bound%d" % B, B, ["bound"], "all" if tier == "thorough" or B == 24 else "quick")
+    stats, h = cl.run_tlc_piped("C06-abuf", "MC_Codec06", "MC_Codec06.cfg", ["vectors", "--prop", "C06"])
+    ev.add_tlc("MC_Codec06 (AlignedBuf)", stats)
+    ev.add_harness("buffer-size vectors on Parser::new", h)
+    hs = cl.run_harness("C06-bufsweep", ["sweep-bufsize", "--max", "1048600" if tier == "thorough" else "70000"])
+    ev.add_harness("buffer-size sweep against the vector-validated rule", hs, as_traces=False)
+    rp_traces(ev, "C06", seed, 1500 if tier == "thorough" else 200)
+    ev.exhaustive = False
+    ev.assumptions = ["buffer sizes near usize::MAX are not allocatable and outside the stated range"]
